@@ -169,6 +169,7 @@ BinResult(m, op, l, r) == BinOp(IF op = "=" THEN "==" ELSE op, Deref(m, l), Dere
 KindName(v) == CASE v.t = "int" -> "Int" [] v.t = "bool" -> "Bool" [] v.t = "str" -> "Str" [] OTHER -> ""
 (* built-in methods the machine runs through MSLang!Builtin (those that do not call back into bytecode) *)
 BuiltinNames == {"len", "push", "remove", "reverse", "clear", "clone", "join", "index_of", "is_closure", "map", "filter",
+                 "substring", "delete", "insert", "parse_int_radix",
                  "contains_key", "replace", "keys", "values", "pairs"}
 VoidBuiltins == {"push", "reverse", "clear"}
 (* a position inside a list whose order the model does not prescribe (keys / values / pairs of a map): the value *)
